@@ -8,7 +8,10 @@ import (
 	"compress/flate"
 	"fmt"
 	"io"
+	"strconv"
 	"strings"
+
+	dflate "github.com/dsnet/compress/flate"
 
 	cflate "github.com/dsnet/compress/internal/cgo/flate"
 )
@@ -307,6 +310,54 @@ func execFl(o *Out, id, line string) {
 		key = kv["in"]
 	}
 	o.Emit(id, line, "fl id="+id+" in="+hx(in), res, key)
+	// the Go-shaped Lean model driven by a schedule of Read sizes (derived from the input);
+	// in the quick tier only one in eight of the tiny exhaustive inputs takes this second pass
+	// (and inputs above 6000 bytes are left to the specification: the array-based window model copies
+	// its buffer on every match when it is not uniquely referenced, which makes them slow in the driver)
+	if len(in) <= 6000 && (o.tier == "thorough" || len(in) > 2 || (len(in) == 2 && in[1]%8 == 0) || len(in) < 2) {
+		h := uint64(len(in))*0x9e3779b97f4a7c15 + 7
+		for _, b := range in[:min(len(in), 16)] {
+			h = (h ^ uint64(b)) * 1099511628211
+		}
+		rr := NewRand(h)
+		var sched []int
+		for k := 1 + rr.Intn(6); k > 0; k-- {
+			sched = append(sched, rr.Pick([]int{0, 1, 1, 2, 3, 7, 100, 4096, 40000}))
+		}
+		if sched[len(sched)-1] == 0 {
+			sched = append(sched, 1+rr.Intn(5000))
+		}
+		zr, _ := dflate.NewReader(bytes.NewReader(in), nil)
+		var got []byte
+		var rerr error
+		for i := 0; rerr == nil; i++ {
+			n := sched[min(i, len(sched)-1)]
+			buf := make([]byte, n)
+			var k int
+			k, rerr = zr.Read(buf)
+			got = append(got, buf[:k]...)
+		}
+		var ss []string
+		for _, v := range sched {
+			ss = append(ss, strconv.Itoa(v))
+		}
+		inOff := "-"
+		if rerr == io.EOF {
+			inOff = strconv.FormatInt(zr.InputOffset, 10)
+		}
+		o.Emit(id+"r", "", "flr id="+id+"r in="+hx(in)+" sched="+strings.Join(ss, ","),
+			fmt.Sprintf("%s:%s:%s:%d", hx(got), errClass(rerr), inOff, zr.OutputOffset), "")
+		rcls := errClass(rerr)
+		if rcls == "eof" {
+			rcls = "nil"
+		}
+		if rcls != cls || (err == nil && !bytes.Equal(got, out)) || !commonPrefixOK(got, out) {
+			o.Violate("C10", fmt.Sprintf("Read sizes %v change the result: %s/%d bytes vs %s/%d bytes", sched, errClass(rerr), len(got), cls, len(out)), "read-size-dependent", line)
+		}
+		if zr.OutputOffset != int64(len(got)) {
+			o.Violate("C11", fmt.Sprintf("OutputOffset=%d after delivering %d bytes", zr.OutputOffset, len(got)), "output-offset", line)
+		}
+	}
 	// oracle: Go compress/flate and zlib
 	sout, sun, serr := inflateAll(in)
 	if (serr == nil) != (err == nil) {
